@@ -96,6 +96,13 @@ fn builder(cs: &CompilerState, writer: &mut dyn Write, args: &Args) -> Result<()
                 let mut buf = Vec::new();
                 c.write(&mut buf, args.insert_code)?;
                 fj["text"] = json!(String::from_utf8_lossy(&buf).to_string());
+                // both renderings of the writer: plain and with cycle annotations
+                let mut b0 = Vec::new();
+                c.write(&mut b0, false)?;
+                fj["text_plain"] = json!(String::from_utf8_lossy(&b0).to_string());
+                let mut b1 = Vec::new();
+                c.write(&mut b1, true)?;
+                fj["text_cycles"] = json!(String::from_utf8_lossy(&b1).to_string());
             }
         }
         funcs.push(fj);
